@@ -77,8 +77,10 @@ def inflight(reopened, mode):
     L = ["open %s" % mode, "ks h0 alpha", "put h0 61 01", "put h0 62 02"]
     if reopened:
         L += ["reopen", "ks h0 alpha"]
-    L += ["pausepoint ks.after_journal 1 hold", "thread w put h0 6b 0b &", "waitpause ks.after_journal",
-          "snap s0 open", "scan s0 h0 fwd all", "pausepoint ks.after_journal 1 off", "release ks.after_journal", "sleep 150",
+    # a single insert on a transactional database is a transaction commit: it goes through the batch path
+    site = "ks.after_journal" if mode == "plain" else "batch.after_seqno"
+    L += ["pausepoint %s 1 hold" % site, "thread w put h0 6b 0b &", "waitpause %s" % site,
+          "snap s0 open", "scan s0 h0 fwd all", "pausepoint %s 1 off" % site, "release %s" % site, "sleep 150",
           "thread w get - h0 6b", "scan s0 h0 fwd all",
           "pausepoint batch.after_item 1 hold", "thread w batch - h0:p:71:01 h0:p:72:02 h0:p:73:03 &", "waitpause batch.after_item",
           "snap s1 open", "scan s1 h0 fwd all", "pausepoint batch.after_item 1 off", "release batch.after_item", "sleep 150",
